@@ -38,6 +38,10 @@ def run(ctx):
     ctx.guarded("R08.5", "fifo", lambda: fifo(ctx, "R08.5", "response_queue", {"push_back", "pop_front", "clear"}))
     ctx.rule("R08.6", "read() hands over every request the parser completed: after a successful try_read it returns only once pop_parsed_request() answered None (bytes already taken off the socket raise no further readiness event)")
     ctx.guarded("R08.6", "drain-all", lambda: drain_all(ctx))
+    ctx.rule("R08.7", "a complete well-formed request is not refused: the incremental parsers build a ParseError only for the enumerated reasons (= C02 R02.10) -- a budget that is kept per connection instead of per request, say, turns the n-th good request into a 400 that is never yielded")
+    from .c06 import _Remap as _Remap2
+    from . import c02 as _c02
+    ctx.guarded("R08.7", "rejections", lambda: _c02.rejections(_Remap2(ctx, "R08.7"), "R02.10"))
     ctx.rule("R08.4", "one try_read / try_write per readiness notification (a second write on a full socket would report EAGAIN and close a healthy connection); served streams are non-blocking")
     from .c09 import single_io, nonblocking
     ctx.guarded("R08.4", "single-io", lambda: single_io(ctx, "R08.4"))
@@ -331,6 +335,13 @@ def switch_conditions(ctx, which=("read", "write")):
             pw = conn.atom_truth(lf, lambda t: is_call(t, conn.P + "pending_write"))
             closed = "Closed" in vals
             if closed:
+                # closing is the answer to a failed transfer only: a path on which try_read / try_write succeeded and the
+                # connection is closed all the same drops a client that is still owed something (the body it was told to
+                # send with 100 Continue, the rest of a pipeline)
+                from .util import result_test
+                io = "try_read" if w == "read" else "try_write"
+                failed = any(result_test(t, c, lambda y: is_call(y, conn.P + io)) == "err" for (t, c, _b) in lf.conds)
+                ctx.ob("R08.3", "%s|closes-only-after-failure" % w, failed, "%s(): the state becomes Closed only on a path on which %s() reported an error" % (w, io), fn.loc(lf.bb))
                 continue
             n += 1
             if pw is None:
